@@ -64,7 +64,11 @@ def i1_routing(ctx):
             want = (BOOL % ('([] f:%s::vectored_enabled %s)' % (ICU, irq)), True)
             if want not in g:
                 ctx.report(R, f, n, 'Trigger on_vectored_interrupt', 'vectored line is signalled without testing vectored_enabled[%s]' % irq)
-            if args != ['(call %s::GetVector on this %s)' % (ICU, irq), '(!= ([] f:%s::vector_context_switch %s) 0)' % (ICU, irq)]:
+            # (named temporaries for the two arguments are resolved to what they were computed from)
+            rx = Renderer(f, inline_locals=True)
+            args_x = [rx.r(a) for a in n['args'][1:]]
+            wantv = ['(call %s::GetVector on this %s)' % (ICU, irq), '(!= ([] f:%s::vector_context_switch %s) 0)' % (ICU, irq)]
+            if args != wantv and args_x != wantv and [BOOL % a if not a.startswith('(!= ') else a for a in args_x] != wantv:
                 ctx.report(R, f, n, 'Trigger on_vectored_interrupt args', 'vector / context flag are not those of the triggering irq: %s' % args)
         extra = [c for c, pol in g if 'request' in c]
         if extra:
@@ -89,7 +93,8 @@ def i1_routing(ctx):
 def i2_pending(ctx):
     R = 'C07.I2'
     ctx.rule(R, 'pending bits: ICU::request is written only by Trigger (|= bits), Acknowledge (&= ~bits) and Reset; '
-                'GetRequest only reads', floor=3)
+                'GetRequest only reads; the routing masks enabled[k] / vectored_enabled are replaced by the written value in '
+                'SetEnable / SetEnableVectored, cleared in Reset and modified nowhere else', floor=3)
     n = 0
     for fid, f in ctx.F['functions'].items():
         if not is_library(f):
@@ -119,6 +124,37 @@ def i2_pending(ctx):
                     ctx.report(R, f, n_, '%s request %s' % (nm, how), 'pending register modified by %s with %s %s'
                                % (short_fn(fid), how, r.r(n_['args'][1])[:60] if n_.get('args') and len(n_['args']) > 1 else ''))
     ctx.require(n >= 3, 'writers of ICU::request not found')
+    # routing masks: what decides whether an IRQ reaches a line is exactly what software wrote last - enabled[k] and
+    # vectored_enabled are replaced (plain `=`) by the bitset of the written value in SetEnable / SetEnableVectored, cleared in
+    # Reset, and modified nowhere else (a `|=` there could add routes but never remove one)
+    m = 0
+    for fid, f in ctx.F['functions'].items():
+        if not is_library(f):
+            continue
+        for n_ in walk(f.get('body')):
+            tgt = how = None
+            if n_.get('k') == 'opcall' and n_.get('op') in ('|=', '&=', '=', '^=', '<<=', '>>=') and n_.get('args'):
+                tgt, how = n_['args'][0], n_['op']
+            elif n_.get('k') == 'assign':
+                tgt, how = n_.get('lhs'), n_.get('op')
+            elif n_.get('k') == 'call' and n_.get('obj') is not None and n_.get('name') in ('reset', 'set', 'flip'):
+                tgt, how = n_['obj'], n_['name']
+            p = field_path(tgt) if tgt is not None else None
+            if not p or p[0] != ICU or p[1] not in ('enabled', 'vectored_enabled'):
+                continue
+            m += 1
+            ctx.inst(R)
+            ctx.touch(f)
+            nm = f['name']
+            r = Renderer(f)
+            val = r.r(n_['args'][1]) if n_.get('k') == 'opcall' and len(n_.get('args', [])) > 1 else (r.r(n_.get('rhs')) if n_.get('k') == 'assign' else '')
+            ok = (nm == 'Reset' and how == 'reset') or \
+                 (nm in ('SetEnable', 'SetEnableVectored') and how == '=' and re.match(r'^\(new std::bitset<16> \$\d\)$', val) is not None)
+            if not ok:
+                ctx.report(R, f, n_, '%s %s %s' % (nm, p[1], how),
+                           'routing mask %s modified by %s with `%s %s`; it must be replaced by the written value (SetEnable*) or cleared (Reset)'
+                           % (p[1], short_fn(fid), how, val[:60]))
+    ctx.require(m >= 4, 'writers of the ICU routing masks not found (%d)' % m)
 
 
 def i3_latches(ctx, RL):
@@ -126,7 +162,10 @@ def i3_latches(ctx, RL):
     ctx.rule(R, 'core latches: regs.ip[i] / ipv are set to 1 only under the atomic exchange(false) of the matching latch at the top '
                 'of the cycle and cleared only in the interrupt entry blocks; nothing else in the library writes them', floor=4)
     f, r = RL.f, RL.r
-    RL.need('latch', 'vlatch', 'interrupt')
+    RL.need('fetch', 'interrupt')
+    # the sampling stage: everything in the cycle before the instruction fetch (the latch loop and the vectored latch test,
+    # however they are phrased)
+    sampling = RL.body[:RL.index('fetch')]
     for fid, g in ctx.F['functions'].items():
         if not is_library(g):
             continue
@@ -153,7 +192,7 @@ def i3_latches(ctx, RL):
                     want = '(call std::atomic<bool>::exchange on f:Teakra::Interpreter::vinterrupt_pending 0 std::memory_order_seq_cst)'
                 if (want, True) not in gs:
                     ctx.report(R, f, n, inst, 'latch set without the matching exchange(false) being true: guards %s' % sorted(gs))
-                inside = any(x is n for st in ('latch', 'vlatch') for x in walk(RL.stage[st]))
+                inside = any(x is n for st in sampling for x in walk(st))
                 if not inside:
                     ctx.report(R, f, n, inst, 'latch set outside the sampling stage at the top of the cycle')
             elif val == 0:
